@@ -17,14 +17,17 @@ use crate::obs::guard;
 pub static DEF: PropDef = PropDef {
     id: "C17",
     level: "exploration",
-    rule: "each case: one hostile header — element type in {Binary, Utf8, UnsignedInt, raw tag (unknown id, tolerated), master} x declared size in {0, 1, M-1, M, M+1, 2M, 2^20, 2^32, 4*10^9, 4*10^9+1, 2^40, 2^56-2, random} encoded in a random vint width that can hold it x position {root, inside a known-size master (with and without oversize tolerance), inside an unknown-size master} x payload {absent, a few bytes, complete when small} x size limit M in {0, 5, 4096, 64 KiB, 1 MiB, default 4*10^9 (declared sizes <= 64 MiB only)} x initial capacity {16, 4096, 65536} x all 8 tolerance subsets — parsed by the real iterator (next() until the first error/None, then one try_recover() and next()). Around every API call the counting allocator measures peak live-heap growth and the largest single request on that thread; both must stay <= 16*max(B, capacity, 64 KiB) + 1 MiB where, while the probed element is being handled, B = its declared size if within the limit, else 0, and afterwards (elements found in the random payload) B = M; an element declaring more than the limit must not be returned as an item nor reach its payload (the call must end in InvalidTagSize or an earlier check's error: InvalidTagId / HierarchyError / OversizedChildElement / InvalidTagData); no panic or arithmetic overflow (overflow checks are on). distinct = (type, size class relative to M, width, position, limit, capacity, tolerance); non-trivial iff declared size > capacity.",
+    rule: "each case: one hostile header — element type in {Binary, Utf8, UnsignedInt, raw tag (unknown id, tolerated), master} x declared size in {0, 1, M-1, M, M+1, 2M, 2^20, 2^32, 4*10^9, 4*10^9+1, 2^40, 2^56-2, random} encoded in a random vint width that can hold it x position {root, inside a known-size master (with and without oversize tolerance), inside an unknown-size master} x payload {absent, a few bytes, complete when small} x size limit M in {0, 5, 4096, 64 KiB, 1 MiB, default 4*10^9 (declared sizes <= 64 MiB only)} x initial capacity {16, 4096, 65536} x all 8 tolerance subsets — parsed by the real iterator (next() until the first error/None, then one try_recover() and next()). Around every API call the counting allocator measures peak live-heap growth and the largest single request on that thread; both must stay <= 16*max(B, capacity) + 64 KiB where, while the probed element is being handled, B = its declared size if within the limit, else 0, and afterwards (elements found in the random payload) B = M; an element declaring more than the limit must not be returned as an item nor reach its payload (the call must end in InvalidTagSize or an earlier check's error: InvalidTagId / HierarchyError / OversizedChildElement / InvalidTagData); no panic or arithmetic overflow (overflow checks are on). Every 20 000th case instead parses one long valid stream (6 MiB quick / 24 MiB thorough) of in-limit elements of varying size and measures the growth over the whole parse against the same bound (memory creep). distinct = (type, size class relative to M, width, position, limit, capacity, tolerance); non-trivial iff declared size > capacity.",
     assumptions: &["the constant 16 is deliberately loose (today's worst legitimate ratio is about 3: old buffer + grown buffer + the payload copy handed to the tag); the faults this property is about are off by 10^3-10^12", "with the limit removed (None) nothing is promised; not exercised", "default-limit acceptance is only exercised up to 64 MiB declared"],
     cases_quick: 800_000,
     cases_thorough: 8_000_000,
-    floors: &[("api_calls_measured", 60_000), ("over_limit_headers", 8_000), ("within_limit_missing_payload", 5_000), ("distinct_nontrivial", 800), ("rejected_InvalidTagSize", 3_000)],
+    floors: &[("api_calls_measured", 60_000), ("over_limit_headers", 8_000), ("within_limit_missing_payload", 5_000), ("distinct_nontrivial", 800), ("rejected_InvalidTagSize", 3_000), ("long_streams_measured", 10)],
     exhaustive_note: None,
     run,
 };
+
+/// fixed allowance for the emission queue, the open-master stack and the monitor's own copy of the item
+const SLACK: u64 = 64 << 10;
 
 const M_ID: u64 = 0x1A45DFA3; // root master
 const B_ID: u64 = 0x4DB1;
@@ -52,7 +55,75 @@ fn c17_spec() -> Spec {
     }
 }
 
+/// Long valid stream of many in-limit elements of varying size: the heap growth over the WHOLE parse (items dropped as
+/// they come) must stay within the same bound — catches buffers that creep up a little with every element.
+fn run_long_stream(c: &mut Case) {
+    let spec = c17_spec();
+    spec.install();
+    let m: usize = *c.rng.pick(&[512usize, 1024, 4096]);
+    let capacity: usize = *c.rng.pick(&[16usize, 1024, 4096]);
+    let total = c.tier.pick(6usize << 20, 24 << 20);
+    let mut bytes: Vec<u8> = Vec::with_capacity(total + 8192);
+    bytes.extend(id_bytes(M_ID));
+    bytes.extend(enc_unknown_size(8));
+    let mut n = 0usize;
+    while bytes.len() < total {
+        let len = c.rng.urange(m / 4, m);
+        bytes.extend(id_bytes(if n % 3 == 0 { VOID_ID } else { CB_ID }));
+        bytes.extend(enc_vint(len as u64, crate::refcodec::min_size_width(len as u64).unwrap()));
+        let fill = c.rng.byte();
+        bytes.resize(bytes.len() + len, fill);
+        n += 1;
+    }
+    let cfg = RCfg { allow: 0, buffered: vec![], capacity: Some(capacity), max_size: MaxSz::Set(Some(m)), eof_end: true };
+    let src = if c.rng.chance(1, 2) { ScriptedRead::new(bytes.clone()).with_chunks(vec![], c.rng.urange(1000, 70_000)) } else { ScriptedRead::new(bytes.clone()) };
+    let mut src = src;
+    src.keep_log = false;
+    let mut it = make_iter(src, &cfg);
+    let bound: u64 = 16 * (m.max(capacity) as u64) + SLACK;
+    let (res, win) = measure(|| {
+        guard(1 << 40, || {
+            let mut items = 0usize;
+            let mut err = None;
+            loop {
+                match it.next() {
+                    None => break,
+                    Some(Ok(t)) => {
+                        items += 1;
+                        drop(t);
+                    }
+                    Some(Err(e)) => {
+                        err = Some(ErrRec::from(&e));
+                        break;
+                    }
+                }
+            }
+            (items, err)
+        })
+    });
+    c.eval();
+    c.count("long_streams_measured");
+    c.add("api_calls_measured", n as u64);
+    c.max("long_stream_peak_growth_over_allowed_x1000", win.peak * 1000 / bound);
+    let wit = J::obj().set("scenario", J::s("long valid stream")).set("stream_bytes", J::u(bytes.len())).set("elements", J::u(n)).set("limit_M", J::u(m)).set("capacity", J::u(capacity)).set("allowed_growth_bytes", J::u(bound)).set("peak_growth", J::u(win.peak)).set("largest_request", J::u(win.max_request));
+    match res {
+        Err(cg) => c.violation(format!("C17/long-stream/{}", cg.sig()), cg.text(), wit),
+        Ok((items, err)) => {
+            if err.is_some() || items != n + 2 {
+                c.violation("C17/long-stream/parse-differs", format!("{} items, error {:?}; expected {} items", items, err.map(|e| e.short()), n + 2), wit);
+            } else if win.peak > bound || win.max_request > bound {
+                c.violation("C17/long-stream/memory-creep", format!("parsing {} in-limit elements (limit {}, capacity {}) grew the heap by {} bytes (largest request {}); allowed {}", n, m, capacity, win.peak, win.max_request, bound), wit);
+            }
+        }
+    }
+    c.nontrivial(mix(hash_str("long-stream"), mix(m as u64, capacity as u64)));
+}
+
 fn run(c: &mut Case) {
+    if c.idx % 20_000 == 7 {
+        run_long_stream(c);
+        return;
+    }
     let spec = c17_spec();
     spec.install();
     // ---- configuration
@@ -139,8 +210,10 @@ fn run(c: &mut Case) {
     let cfg = RCfg { allow, buffered: vec![], capacity: Some(capacity), max_size, eof_end: c.rng.chance(3, 4) };
     let within = declared <= m;
     let b = if within && tyname != "master" { declared } else { 0 };
-    let bound: u64 = 16 * b.max(capacity as u64).max(65536) + (1 << 20);
+    let bound: u64 = 16 * b.max(capacity as u64) + SLACK;
     let src = if c.rng.chance(1, 3) { ScriptedRead::new(bytes.clone()).with_chunks(vec![], c.rng.urange(1, 64)) } else { ScriptedRead::new(bytes.clone()) };
+    let mut src = src;
+    src.keep_log = false;
     let mut it = make_iter(src, &cfg);
     let wit = |msg: &str, extra: J| {
         J::obj()
@@ -165,25 +238,27 @@ fn run(c: &mut Case) {
     let mut seen_elem_item = false;
     // the tight, declared-size based bound applies while the probed element is being handled; afterwards (other
     // elements found in the random payload) the general bound 16*max(M, capacity, 64 KiB) + 1 MiB applies
-    let bound_general: u64 = 16 * m.max(capacity as u64).max(65536) + (1 << 20);
+    let bound_general: u64 = 16 * m.max(capacity as u64) + SLACK;
     let mut probe_done = false;
     let mut first_err: Option<ErrRec> = None;
     for step in 0..8 {
         it.get_mut().begin_api_call();
         let recover = step >= 1 && first_err.is_some() && step % 2 == 1;
-        let (res, win) = measure(|| {
+        // only the library call is inside the measured window: converting tags / formatting errors happens afterwards
+        let (raw, win) = measure(|| {
             guard(1 << 24, || {
                 if recover {
-                    it.try_recover().map(|_| None).map_err(|e| ErrRec::from(&e))
+                    it.try_recover().map(|_| None)
                 } else {
                     match it.next() {
                         None => Ok(None),
-                        Some(Ok(t)) => Ok(Some(Item::from_tag(&t))),
-                        Some(Err(e)) => Err(ErrRec::from(&e)),
+                        Some(Ok(t)) => Ok(Some(t)),
+                        Some(Err(e)) => Err(e),
                     }
                 }
             })
         });
+        let res = raw.map(|r| r.map(|o| o.map(|t| Item::from_tag(&t))).map_err(|e| ErrRec::from(&e)));
         c.eval();
         c.count("api_calls_measured");
         let bound = if probe_done { bound_general } else { bound };
